@@ -8,9 +8,11 @@ package c13
 import (
 	"crypto/sha256"
 	"encoding/hex"
+	"encoding/json"
 	"fmt"
 	"os"
 	"path/filepath"
+	"regexp"
 	"sort"
 	"strconv"
 	"strings"
@@ -208,6 +210,25 @@ func layoutUnits(sameNamedTypes bool) []scen.Unit {
 	return []scen.Unit{{Controllers: []scen.Controller{a, b, c}, Decls: decls, Imports: map[string][]string{"p": imports, "q": imports}}}
 }
 
+var dateLine = regexp.MustCompile(`^\s*(//\s*)?Generated Date: \d{4}-\d{2}-\d{2}\s*$`)
+
+// linesOnlyIn returns the lines of a (as a multiset) that b does not have.
+func linesOnlyIn(a, b string) []string {
+	have := map[string]int{}
+	for _, l := range strings.Split(b, "\n") {
+		have[l]++
+	}
+	var out []string
+	for _, l := range strings.Split(a, "\n") {
+		if have[l] > 0 {
+			have[l]--
+			continue
+		}
+		out = append(out, l)
+	}
+	return out
+}
+
 // aliasedEnum gives the Kind enum two further constants that repeat existing values (a default alias and a synonym).
 func aliasedEnum(us []scen.Unit) []scen.Unit {
 	us[0].Decls["m1"] = strings.Replace(us[0].Decls["m1"], "\tKindB Kind = \"b\"\n", "\tKindB Kind = \"b\"\n\tKindC Kind = \"c\"\n\tKindDefault Kind = KindA\n\tKindAlso Kind = \"b\"\n", 1)
@@ -282,6 +303,30 @@ func Main(tier, replay string) {
 		run.AddValidated(1)
 		if again.Spec != base.Spec || again.Routes != base.Routes {
 			run.Report(core.Violation{Oracle: "pinned-orders-give-identical-output", Features: p.Feat, What: "two executions with every hooked iteration order pinned differ: an un-hooked source of nondeterminism reaches the output (" + firstDiff(base, again) + ")", Case: map[string]any{"project": p.Name, "choices": map[string]int{}}})
+		}
+		// the generation-date comment is the only thing skipGenerateDateComment=false may add
+		if replayChoices == nil {
+			work := dir + "-dated"
+			copyDir(dir, work)
+			dated := scen.CloneConfig(p.P.Config)
+			scen.Set(dated, "routesConfig.skipGenerateDateComment", false)
+			b, _ := json.MarshalIndent(dated, "", "  ")
+			os.WriteFile(filepath.Join(work, "gleece.config.json"), b, 0o644)
+			res := scen.RunCLIBin(scen.CLIPath(false), work, []string{"generate", "spec-and-routes", "-c", "./gleece.config.json"}, 180)
+			os.RemoveAll(work)
+			run.AddValidated(1)
+			var extra []string
+			if res.Exit == 0 {
+				extra = linesOnlyIn(res.Files["dist/routes/gleece.routes.go"], base.Routes)
+			}
+			switch {
+			case res.Exit != 0:
+				run.Report(core.Violation{Oracle: "date-comment-is-the-only-difference", Features: p.Feat, What: "with skipGenerateDateComment=false the command fails: " + tail(res.Output), Case: map[string]any{"project": p.Name, "choices": map[string]int{}}})
+			case res.Files["dist/openapi.json"] != base.Spec:
+				run.Report(core.Violation{Oracle: "date-comment-is-the-only-difference", Features: p.Feat, What: "the spec changes with skipGenerateDateComment: " + diffLines(base.Spec, res.Files["dist/openapi.json"]), Case: map[string]any{"project": p.Name, "choices": map[string]int{}}})
+			case len(extra) != 1 || !dateLine.MatchString(extra[0]) || len(linesOnlyIn(base.Routes, res.Files["dist/routes/gleece.routes.go"])) != 0:
+				run.Report(core.Violation{Oracle: "date-comment-is-the-only-difference", Features: p.Feat, What: fmt.Sprintf("routes file with the date comment differs from the one without it by more than one 'Generated Date' line: added %q, removed %q", extra, linesOnlyIn(base.Routes, res.Files["dist/routes/gleece.routes.go"])), Case: map[string]any{"project": p.Name, "choices": map[string]int{}}})
+			}
 		}
 		run.Set(fmt.Sprintf("project_%d", pi), fmt.Sprintf("%s: %d choice points (%s)", p.Name, len(pts), sites(pts)))
 		specByProject[p.Name] = base.Spec
@@ -456,7 +501,7 @@ func Main(tier, replay string) {
 	run.Sample(map[string]any{"project": projects[0].Name, "choices": map[string]int{"0": 1}, "meaning": "first choice point returns its 2nd permutation, all others canonical"})
 	run.Bound = fmt.Sprintf("%d projects (3 controllers over 2 packages and 3 files, types from 2 further packages; glob order reversed; same-named types%s); every permutation at every hooked choice point with <= %d points deviating from canonical order; %s runs of the unhooked binary per project", len(projects), map[string]string{"quick": "", "thorough": "; 2 more engines"}[tier], bound, map[string]string{"quick": "6", "thorough": "20"}[tier])
 	run.Rule = "state = one execution of the real CLI in a fresh process under a vector of iteration-order choices; transition = one such execution; validated = byte comparisons of spec and routes files with the canonical execution (plus repeated unhooked executions and cross-engine spec comparison)"
-	run.Assumptions = []string{"Go's map iteration order is over-approximated by all permutations, at the four hooked sites only; unhooked sources are only detected if they vary during the run", "generation date comment is skipped by configuration"}
+	run.Assumptions = []string{"Go's map iteration order is over-approximated by all permutations, at the four hooked sites only; unhooked sources are only detected if they vary during the run", "generation date comment is skipped by configuration, except for one dated run per project that must differ by exactly that comment line"}
 	os.RemoveAll(scratch)
 	run.Finish()
 }
